@@ -94,7 +94,7 @@ func NewCtl(k, ncalls int) *Ctl {
 }
 
 var gatePoints = map[string]bool{"rpcnb_enq": true, "rpcnb_handoff": true, "crecv_deliver": true,
-	"crecv_closed": true, "crecv_fanout": true, "csend_got": true}
+	"crecv_closed": true, "crecv_fanout": true, "crecv_fanned": true, "csend_got": true}
 
 func (c *Ctl) hook(point string, clnt *go9p.Clnt, r *go9p.Req, nums []int) {
 	if clnt != c.Clnt || !gatePoints[point] {
